@@ -90,6 +90,7 @@ impl MEdit {
             MEdit::MoveBuildingZ { .. } => "edit.move_building_z",
             MEdit::SetAll { .. } => "edit.set_all",
             MEdit::ScaleAll { .. } => "edit.scale_all",
+            MEdit::ShareIdAcross { a, .. } if a == "nil" => "variant.nil_id_element",
             MEdit::ShareIdAcross { .. } => "variant.id_shared_across_collections",
         }
     }
@@ -514,7 +515,9 @@ pub fn apply(m: &mut Value, e: &MEdit, serial: u64) -> bool {
             any
         }
         MEdit::ShareIdAcross { a, b } => {
-            let pa = match closure::COLLECTIONS.iter().find(|c| c.0 == a.as_str()) {
+            // a == "nil": the element of `b` gets the nil id as its OWN id (it exists, so links
+            // to it are intact)
+            let pa = match closure::COLLECTIONS.iter().find(|c| c.0 == a.as_str() || a == "nil") {
                 Some((_, p)) => *p,
                 None => return false,
             };
@@ -522,9 +525,13 @@ pub fn apply(m: &mut Value, e: &MEdit, serial: u64) -> bool {
                 Some((_, p)) => *p,
                 None => return false,
             };
-            let ida = match closure::collection(m, pa).first().and_then(|e| e.get("id")).and_then(|v| v.as_str()) {
-                Some(i) => i.to_string(),
-                None => return false,
+            let ida = if a == "nil" {
+                NIL.to_string()
+            } else {
+                match closure::collection(m, pa).first().and_then(|e| e.get("id")).and_then(|v| v.as_str()) {
+                    Some(i) => i.to_string(),
+                    None => return false,
+                }
             };
             let idb = match closure::collection(m, pb).first().and_then(|e| e.get("id")).and_then(|v| v.as_str()) {
                 Some(i) => i.to_string(),
